@@ -656,8 +656,8 @@ decision function the theorems above are about. -/
 
 theorem interp_core (sh : SiteShape) (i : RespIn)
     (h1 : sh = shape .h1 ∨ sh = shape .h2) : interp sh i = some (viewAction (decideCore i)) := by
-  have e1 : strips [Effect.set .body .gzipReader, .delContentEncoding, .delContentLength, .contentLengthMinus1, .uncompressedTrue] = some true := by decide
-  have e1' : strips [Effect.delContentEncoding, .delContentLength, .contentLengthMinus1, .set .body .gzipReader, .uncompressedTrue] = some true := by decide
+  have e1 : strips [Effect.delContentEncoding, .delContentLength, .contentLengthMinus1, .uncompressedTrue, .set .body .gzipReader] = some true := by decide
+  have e1' : strips [Effect.delContentEncoding, .delContentLength, .contentLengthMinus1, .uncompressedTrue, .set .body .gzipReader] = some true := by decide
   have e2 : strips [Effect.delContentEncoding, .delContentLength, .contentLengthMinus1, .uncompressedTrue, .set .body .reader] = some true := by decide
   have e3 : strips [] = some false := by decide
   rcases h1 with rfl | rfl <;>
@@ -680,7 +680,7 @@ theorem interp_shape_h2 (i : RespIn) : interp (shape .h2) i = some (viewAction (
 /-- **interp_shape_h3** — the extracted shape of `ReadResponse` (assignments through
 `s.responseBody`, `res.Body = s.responseBody` at the end) means `decideH3`. -/
 theorem interp_shape_h3 (i : RespIn) : interp (shape .h3) i = some (viewAction (decideH3 i)) := by
-  have e1 : strips [Effect.delContentEncoding, .delContentLength, .contentLengthMinus1, .set .responseBody .gzipReader, .uncompressedTrue] = some true := by decide
+  have e1 : strips [Effect.delContentEncoding, .delContentLength, .contentLengthMinus1, .uncompressedTrue, .set .responseBody .gzipReader] = some true := by decide
   have e2 : strips [Effect.delContentEncoding, .delContentLength, .contentLengthMinus1, .uncompressedTrue, .set .responseBody .reader] = some true := by decide
   have e3 : strips [] = some false := by decide
   simp only [interp, shape, decideH3, isGzipFold]
@@ -696,8 +696,8 @@ code that was extracted before the fixes) -/
 theorem interp_legacy_shape_h1_h2 (i : RespIn) :
     interp (Legacy.shape .h1) i = some (Legacy.viewAction (Legacy.decideCore i)) ∧
     interp (Legacy.shape .h2) i = some (Legacy.viewAction (Legacy.decideCore i)) := by
-  have e1 : strips [Effect.set .body .gzipReader, .delContentEncoding, .delContentLength, .contentLengthMinus1, .uncompressedTrue] = some true := by decide
-  have e1' : strips [Effect.delContentEncoding, .delContentLength, .contentLengthMinus1, .set .body .gzipReader, .uncompressedTrue] = some true := by decide
+  have e1 : strips [Effect.delContentEncoding, .delContentLength, .contentLengthMinus1, .uncompressedTrue, .set .body .gzipReader] = some true := by decide
+  have e1' : strips [Effect.delContentEncoding, .delContentLength, .contentLengthMinus1, .uncompressedTrue, .set .body .gzipReader] = some true := by decide
   have e2 : strips [Effect.delContentEncoding, .delContentLength, .contentLengthMinus1, .uncompressedTrue, .set .body .reader] = some true := by decide
   have e3 : strips [] = some false := by decide
   constructor <;>
@@ -713,7 +713,7 @@ theorem interp_legacy_shape_h1_h2 (i : RespIn) :
 
 theorem interp_legacy_shape_h3 (i : RespIn) :
     interp (Legacy.shape .h3) i = some (Legacy.viewAction (Legacy.decideH3 i)) := by
-  have e1 : strips [Effect.delContentEncoding, .delContentLength, .contentLengthMinus1, .set .responseBody .gzipReader, .uncompressedTrue] = some true := by decide
+  have e1 : strips [Effect.delContentEncoding, .delContentLength, .contentLengthMinus1, .uncompressedTrue, .set .responseBody .gzipReader] = some true := by decide
   have e2 : strips [Effect.delContentEncoding, .delContentLength, .contentLengthMinus1, .uncompressedTrue, .set .body .reader] = some true := by decide
   have e3 : strips [Effect.set .responseBody .raw] = some false := by decide
   simp only [interp, Legacy.shape, Legacy.decideH3]
@@ -729,6 +729,8 @@ theorem interp_legacy_shape_h3 (i : RespIn) :
 /-- the extracted request-side conjunct list means `addGzip` -/
 theorem interpAsk_shape (s : Site) (c : ReqCfg) : interpAsk (shape s).ask c = some (addGzip s c) := by
   cases s <;> simp [interpAsk, shape, addGzip, addGzipH1, addGzipH2, addGzipH3, ReqCfg.isHead, Bool.and_assoc, bne]
+  cases c.disableCompression <;> cases List.isEmpty c.acceptEncoding <;> cases List.isEmpty c.range <;>
+    cases (c.method == tokHEAD) <;> rfl
 
 /-- the fixes do not touch the request side -/
 theorem legacy_shape_ask (s : Site) : (Legacy.shape s).ask = (shape s).ask := by
